@@ -542,6 +542,16 @@ theorem acked_stays_registered (cap : Kind → Cap) (ls : List Label) (sid id : 
   rw [h1, h2] at this
   exact this
 
+/-- **one_stamp_per_session.**  However many open listens of a session were granted `k`, a
+`notifySessions(k)` snapshot has the session under ONE request id (that of the newest of them). -/
+theorem one_stamp_per_session (cap : Kind → Cap) (ls : List Label) (k : Kind) (sid id id' : Nat)
+    (h1 : (sid, id) ∈ ((final cap ls).ks k).subs) (h2 : (sid, id') ∈ ((final cap ls).ks k).subs) : id = id' := by
+  have hS := (reach_inv (reach_final cap ls)).2
+  have e1 := (hS.subs_iff k sid id).1 h1
+  have e2 := (hS.subs_iff k sid id').1 h2
+  rw [e1] at e2
+  exact Option.some.inj e2
+
 /-- **listenEnd_keeps_other_listens.**  The end of one listen — whichever — removes no other open
 stream from the record and leaves the session of every other open stream served for everything that
 stream was granted: if the entry carried the id of the stream that ends, it now carries the id of
